@@ -386,7 +386,7 @@ class Check:
         with open(os.path.join(EVIDENCE, self.pid + ".json"), "w") as f:
             json.dump(ev, f, indent=1)
         log("[done] %s tier=%s states=%d traces=%d evaluations=%d violations=%d known=%d wall=%.0fs" % (
-            self.pid, self.tier, cov["states"], cov["traces_validated_against_impl"], cov["evaluations"],
+            self.pid, self.tier, cov.get("states", 0), cov["traces_validated_against_impl"], cov["evaluations"],
             len(self.violations), len(self.known), time.time() - self.t0))
         return 1 if self.violations else 0
 
